@@ -89,7 +89,7 @@ PROPS = {
  ),
  "C18": dict(
     level="proof",
-    claim="Proof that isequal on fixed-length index arrays is exactly the conjunction of element equalities (both argument orders), that index arrays of different run-time length and ndarrays of different dimension or shape compare false (isequal and isclose), the optional/either/scalar/tuple case tables, and isclose on scalars = |a-b|<eps; for run-time-length shapes (vector, static_vector, mixed) the CFG rule R-EQSHAPE requires the element loop of every instantiation to be entered only past run-time dimension and shape tests that return false; element-wise comparison of equal-shape run-time ndarrays is not decided. (c18b_arrays, constant and run-time shapes, symbolic integer elements) isequal on whole (2,3) arrays: true implies every pair of corresponding elements equal, all pairs equal implies true, one differing pair implies false; another shape or dimension gives false whatever the values; a transposed view compares like the array it denotes.",
+    claim="Proof that isequal on fixed-length index arrays is exactly the conjunction of element equalities (both argument orders), that index arrays of different run-time length and ndarrays of different dimension or shape compare false (isequal and isclose), the optional/either/scalar/tuple case tables, and isclose on scalars = |a-b| < eps with the difference taken in the common type of operands and tolerance, for eleven operand-type pairs (float/double/int/long/unsigned/unsigned char/bool mixes) in either operand order (symmetry), and the tolerance reaches the comparison when one operand is wrapped in an either / optional; for run-time-length shapes (vector, static_vector, mixed) the CFG rule R-EQSHAPE requires the element loop of every instantiation to be entered only past run-time dimension and shape tests that return false; element-wise comparison of equal-shape run-time ndarrays is not decided. (c18b_arrays, constant and run-time shapes, symbolic integer elements) isequal on whole (2,3) arrays: true implies every pair of corresponding elements equal, all pairs equal implies true, one differing pair implies false; another shape or dimension gives false whatever the values; a transposed view compares like the array it denotes.",
     note=E1_NOTE + " " + E2_NOTE,
     technique=E1_TECH + " + CFG dominance rule (shape test before element loop) on instantiations",
     e1=[dict(tu="c18_isequal.cpp"), dict(tu="c18b_arrays.cpp"), dict(tu="c18b_arrays_rt.cpp")],
@@ -115,15 +115,15 @@ PROPS = {
  ),
  "C20": dict(
     level="proof",
-    claim="Proof, for ndarray_t with fixed-rank shape over fixed and bounded buffers in row- and column-major layout and for hybrid_ndarray, ranks 1..3 (thorough 4), every request: after an accepted resize shape, strides, offset-functor strides and element count agree with the request; a refused resize (wrong element count, wrong rank, over capacity) leaves shape and buffer length unchanged; default construction establishes the same invariant; compile-fail witnesses: only mutable_* views (over non-const arrays) can hand out a writable element reference.",
+    claim="Proof, for ndarray_t with fixed-rank shape over fixed and bounded buffers in row- and column-major layout and for hybrid_ndarray, ranks 1..3 (thorough 4), every request: after an accepted resize shape, strides, offset-functor strides and element count agree with the request; a refused resize (wrong element count, wrong rank, over capacity) leaves shape and buffer length unchanged; default construction establishes the same invariant; compile-fail witnesses: only mutable_* views (over non-const arrays) can hand out a writable element reference. (E1 c20b_mutable, (3,4) arrays of constant and of run-time shape, symbolic values) one write through mutable_slice (ranges with steps, a reversed axis, negative bounds, an integer), mutable_reshape, mutable_flatten, mutable_ref leaves exactly the addressed source element holding the written value and every other element unchanged. (E1 c20c_cast) cast to another element type and to the fixed-dimension non-heap array kinds (constant / fixed / clipped shape over fixed / bounded buffers, classic fixed / hybrid) keeps the shape and every (converted) value.",
     note=E1_NOTE,
     technique=E1_TECH,
-    e1=[dict(tu="c20_ndarray.cpp")],
+    e1=[dict(tu="c20_ndarray.cpp"), dict(tu="c20b_mutable.cpp"), dict(tu="c20b_mutable.cpp", flags=["-DVERIF_RT_KIND"]), dict(tu="c20c_cast.cpp"), dict(tu="c20c_cast.cpp", flags=["-DVERIF_RT_KIND"])],
     e2=[dict(rule="R-MEMCOPY", dirs=["nmtools/array/ndarray"])],
     e3=[dict(group="C20")],
     rule=E1_RULE,
     explanation="post-state obligations over a fully symbolic array object and request.",
-    not_decided="dynamic-rank kinds, distinct indices -> distinct offsets (non-linear), cast; write-through changes nothing else (value level)",
+    not_decided="dynamic-rank kinds, distinct indices -> distinct offsets (non-linear), cast to heap-backed or bounded-dimension kinds; write-through for shapes other than the listed one",
     assumptions=["bounded buffer satisfies size<=capacity on entry (proved inductively under C19)"],
  ),
 }
@@ -157,15 +157,15 @@ PROPS["C10"] = dict(
 )
 PROPS["C14"] = dict(
     level="other",
-    claim="Every leaf functor callable (52) forwards its argument pack unchanged to view::<own name>; every functional:: object (126) binds the callable/op of its own name with the operand arity of the oracle table; the 73 ufunc aliases bind the op type of the same name; get_function_t<view X> hands back functional::X; the order facts of the functor machinery (R-ORDER: functors of f precede those of g in f*g, a functor's result precedes the operands still curried, leaves are collected left to right, attributes are appended); and the extraction fold ties every chained sub-composition to its operand position (R-EXTRACTPOS; violated on the unchanged tree, known finding F16). Currying splits, associativity at value level and graph node ids are not decided. (E1 c14b_extract, constant and run-time shapes, symbolic integer elements) for views of depth 1..3 whose nested view is the first operand (unary / binary ufunc, indexing view, reduction, ufunc over indexing, reduction over ufunc, indexing over ufunc, reduction over an explicit broadcast_to, depth 3): the extracted function composition applied to the extracted operands has a value, the view's shape and the view's element at every index.",
+    claim="Every leaf functor callable (52) forwards its argument pack unchanged to view::<own name>; every functional:: object (126) binds the callable/op of its own name with the operand arity of the oracle table; the 73 ufunc aliases bind the op type of the same name; get_function_t<view X> hands back functional::X; the order facts of the functor machinery (R-ORDER: functors of f precede those of g in f*g, a functor's result precedes the operands still curried, leaves are collected left to right, attributes are appended); and the extraction fold ties every chained sub-composition to its operand position (R-EXTRACTPOS; violated on the unchanged tree, known finding F16). Graph node ids are not decided. (E1 c14c_functors, constant shapes (2,3) (3,) (2,1) (3,), symbolic integer elements) a functor called with all operands or curried, a functor with attributes (transpose / sum / reshape), the compositions subtract*multiply and subtract*multiply*add in EVERY split of their 3 resp. 4 operands over the calls (remaining operands passed on in order), both parenthesisations of the chain, and chains through swap / dig2 / bury2 / dup give at every index the element of the direct view expression (order-sensitive in every operand). (E1 c14b_extract, constant and run-time shapes, symbolic integer elements) for views of depth 1..3 whose nested view is the first operand (unary / binary ufunc, indexing view, reduction, ufunc over indexing, reduction over ufunc, indexing over ufunc, reduction over an explicit broadcast_to, depth 3): the extracted function composition applied to the extracted operands has a value, the view's shape and the view's element at every index.",
     note=E2_NOTE,
     technique=E2_TECH,
-    e1=[dict(tu="c14b_extract.cpp"), dict(tu="c14b_extract_rt.cpp")],
+    e1=[dict(tu="c14b_extract.cpp"), dict(tu="c14b_extract_rt.cpp"), dict(tu="c14c_functors.cpp", flags=["-DC14C_PART=1"]), dict(tu="c14c_functors.cpp", flags=["-DC14C_PART=2"]), dict(tu="c14c_functors.cpp", flags=["-DC14C_PART=3"])],
     e2=[dict(rule="R-FWD.functional"), dict(rule="R-GETFN")],
     e3=[dict(group="C14")],
     rule="E2: one instance per functor callable, functor object, op alias and get_function specialisation under include/nmtools/array/functional (core machinery files excluded); distinct by qualified name",
     explanation="A functor equals the direct view call only if its callable forwards to the view of the same name with the same arity; these are structural facts.",
-    not_decided="currying splits, f*g associativity at value level, operand identity, compute-graph node ids",
+    not_decided="currying / composition for run-time shapes (the functor objects do not fold there; replayed concretely: correct) and for chains other than the listed ones, operand identity, compute-graph node ids",
     assumptions=["arity oracle tools/functional_arity.json reviewed by hand"],
 )
 
@@ -215,7 +215,7 @@ PROPS["C11"] = dict(
     note=E2_NOTE,
     technique="static: custom libTooling extractor + provenance grammar over trait specialisations",
     e3=[dict(group="C11")],
-    e1=[dict(tu="c03g_views.cpp"), dict(tu="c03g_views_rt.cpp"), dict(tu="c04i_views.cpp"), dict(tu="c04i_views_rt.cpp"), dict(tu="c04j_views.cpp"), dict(tu="c04j_views_rt.cpp"), dict(tu="c08c_reduce_views.cpp"), dict(tu="c08c_reduce_views_rt.cpp")],
+    e1=[dict(tu="c03g_views.cpp"), dict(tu="c03g_views_rt.cpp"), dict(tu="c04i_views.cpp"), dict(tu="c04i_views_rt.cpp"), dict(tu="c04j_views.cpp"), dict(tu="c04j_views_rt.cpp"), dict(tu="c08c_reduce_views.cpp"), dict(tu="c08c_reduce_views_rt.cpp"), dict(tu="c05b_forms.cpp"), dict(tu="c05b_forms.cpp", flags=["-DVERIF_RT_KIND"])],
     e2=[dict(rule="R-TRAITPROV")],
     rule="E2: one instance per lambda body of a trait specialisation for view::decorator_t<...>; distinct by (file, line)",
     explanation="Static knowledge disagreeing with run-time objects needs a trait value that is not read from the run-time accessor's type; that is visible in the shape of the trait's definition.",
@@ -236,6 +236,25 @@ PROPS["C08"] = dict(
     assumptions=["slice [start,stop) selects start..stop-1 in increasing order (C05)", "extents >= 1"],
 )
 
+PROPS["C05"] = dict(
+    level="proof",
+    claim="Partial, small extents, every element value: (E1 c05_slice) for an axis of extent N = 1..3 (thorough: 4) EVERY combination of start and stop in {None, -N-2 .. N+2} with step in {absent, None, 1, 2, 3, -1, -2, -3} (tuple form with typed parts) gives view::slice exactly the length of Python's slice.indices rule and element k = source element start' + k*step, on arrays of constant shape and - extent 3 - on arrays whose shape is a run-time value; the same for the all-integer index-array forms {start,stop,step} / {start,stop} and for the run-time list handed to apply_slice (array of index arrays: length and elements; list of either-typed parts: lengths only), so the compile-time and run-time encodings agree with the one oracle and hence with each other. Since slice.indices clamps, |start|,|stop| > N behave like N+1, which is enumerated: for these extents the enumeration is exhaustive in start and stop. (E1 c05b_forms) integers drop their axis and negative ones count from the end, an ellipsis stands for the unnamed axes (alone, leading, trailing, between integers / ranges, standing for no axis), several sliced axes are independent, an empty range gives an empty axis, a slice of a slice composes. Extents above 4, |step| > 3 and heap-backed shapes are not decided.",
+    note=E1_NOTE + " The oracle is Python's documented slice.indices algorithm written as a constexpr function of four integers in the driver. Decided after the repair `fix: slice ranges follow Python's start/stop normalisation` (the unchanged upstream code deviated from Python for most negative / out-of-range / empty combinations, see DESIGN 8.8).",
+    technique=E1_TECH + " (exhaustive enumeration of the slice parameters over small extents, element values symbolic)",
+    e1=[dict(tu="c05_slice.cpp", flags=["-DC05_N=1"]), dict(tu="c05_slice.cpp", flags=["-DC05_N=2"]), dict(tu="c05_slice.cpp", flags=["-DC05_N=3"]),
+        dict(tu="c05_slice.cpp", flags=["-DC05_N=3", "-DVERIF_RT_KIND"]),
+        dict(tu="c05_slice.cpp", flags=["-DC05_N=2", "-DC05_FIRST=8", "-DC05_LAST=21"]),
+        dict(tu="c05_slice.cpp", flags=["-DC05_N=2", "-DC05_FIRST=8", "-DC05_LAST=21", "-DVERIF_RT_KIND"]),
+        dict(tu="c05b_forms.cpp"), dict(tu="c05b_forms.cpp", flags=["-DVERIF_RT_KIND"]),
+        dict(tu="c05_slice.cpp", flags=["-DC05_N=4"], thorough_only=True), dict(tu="c05_slice.cpp", flags=["-DC05_N=4", "-DVERIF_RT_KIND"], thorough_only=True),
+        dict(tu="c05_slice.cpp", flags=["-DC05_N=3", "-DC05_FIRST=8", "-DC05_LAST=21"], thorough_only=True),
+        dict(tu="c05_slice.cpp", flags=["-DC05_N=2", "-DVERIF_RT_KIND"], thorough_only=True)],
+    rule=E1_RULE,
+    explanation="index::shape_slice / index::slice depend on (extent, start, stop, step) only; with these as constants the whole view folds and each (combination, position) is one obligation whose expected value comes from Python's slice.indices.",
+    not_decided="extents above 4, |step| above 3, step 0 (Python raises; the library has no failure channel there), heap (std::vector) shapes and slice lists, elements of the either-typed run-time list (std::variant bookkeeping does not fold), mutable_slice write-through",
+    assumptions=["operands do not alias", "extent, start, stop, step as listed"],
+)
+
 HOOK_COMMITS = []
 PROPS["C16"] = dict(
     level="other",
@@ -250,6 +269,5 @@ PROPS["C16"] = dict(
 )
 
 NOT_APPLICABLE = [
- dict(property_id="C05", reason="slice lengths go through ceil(float) and an 8-way sign/None case split on run-time values; no sound static argument in reach, and weaker structural proxies are not necessary conditions (DESIGN §3 C05)"),
  dict(property_id="C17", reason="floating-point results of long view pipelines with tolerance; nothing structural that is also necessary (DESIGN §3 C17). Tried: the pooling output-shape formula is computed in float (ceil/floor of a float quotient), out of reach of E1; the pad stage (index::pad, view::pad) is integer-only and is proved under C02/C15; the constant-shape device that decides C16 was tried on conv1d (shape (1,CI,L) x (CO,CI,KW)): the output shape discharges, the element law leaves residuals in every instance (the convnd pipeline does not fold), so nothing is claimed"),
 ]
